@@ -49,6 +49,31 @@ std::uint8_t* vt_alloc_bytes(std::size_t n) {
 void vt_free_bytes(std::uint8_t* p) { std::free(p); }
 }
 
+// POSIX model for the model descriptors (interposes libc in this executable); every other descriptor
+// goes to the kernel.
+#include <cerrno>
+#include <sys/syscall.h>
+#include <unistd.h>
+#define VT_POSIX_IMPL
+#include "posix_model.h"
+extern "C" {
+struct vt_fd_state vt_fd;
+VT_POSIX_ACCESSORS
+void vt_set_errno(int e) { errno = e; }
+ssize_t read(int fd, void* buf, size_t count) {
+  if (fd == VT_FD_SRC || fd == VT_FD_DST) return vt_posix_read(fd, buf, count);
+  return syscall(SYS_read, fd, buf, count);
+}
+ssize_t write(int fd, const void* buf, size_t count) {
+  if (fd == VT_FD_SRC || fd == VT_FD_DST) return vt_posix_write(fd, buf, count);
+  return syscall(SYS_write, fd, buf, count);
+}
+int close(int fd) {
+  if (fd == VT_FD_SRC || fd == VT_FD_DST || fd == -1) return vt_posix_close(fd);
+  return static_cast<int>(syscall(SYS_close, fd));
+}
+}
+
 namespace vt {
 std::map<std::string, void (*)()>& registry() {
   static std::map<std::string, void (*)()> r;
